@@ -153,6 +153,13 @@ class Oracle:
         # the job's own exception?
         own = [(e[1], repr(e[2])) for e in exp if e[0] == 'err']
         if (tname, targs) in own:
+            if self.on('c02'):
+                exc = mj.handle._value.exception
+                cause = getattr(exc, '__cause__', None)
+                if type(cause).__name__ != 'RemoteTraceback' or \
+                        'task' not in str(cause) or tname not in str(cause):
+                    raise Violation('C02/remote-traceback/%s' % mj.kind,
+                                    'job %d: __cause__ is %r' % (mj.idx, cause))
             return
         if mj.events.get('putfail') or getattr(mj, 'unpicklable', False):
             if tname in ('RuntimeError', 'PicklingError', 'AttributeError',
@@ -181,10 +188,23 @@ class Oracle:
                             'job %d yielded %d items for %d parts' % (
                                 mj.idx, n, mj.nparts))
         if item[0] == 'err' and item[1] in simpool.POOL_MADE:
-            if not self.justify_pool_failure(mj, item[1]):
+            ok_ = self.justify_pool_failure(mj, item[1])
+            if ok_ and item[1] == 'WorkerLostError':
+                # each loss item needs its own part with a dead owner
+                matched = mj.__dict__.setdefault('lost_matched', set())
+                cand = [p.i for p in mj.parts.values()
+                        if p.owner is not None and not p.ready_delivered
+                        and not self.sim.by_pid[p.owner].alive
+                        and p.i not in matched]
+                if cand:
+                    matched.add(cand[0])
+                else:
+                    ok_ = False
+            if not ok_:
                 raise Violation(
                     'C01/own-outcome/%s/unjustified-%s' % (mj.kind, item[1]),
-                    'job %d yielded %s%s without cause' % (mj.idx, item[1], item[2]))
+                    'job %d yielded %s%s with no (further) part entitled to it'
+                    % (mj.idx, item[1], item[2]))
             mj.pool_failed_items = getattr(mj, 'pool_failed_items', 0) + 1
             return
         if mj.events.get('putfail'):
@@ -293,17 +313,17 @@ class Oracle:
             self.observe_job(mj)
         if self.on('c01'):
             self.check_callbacks()
-        if self.on('c04') and op[0] == 'tick' and res != 'noop' and \
+        if self.on('c04') and op[0] == 'tick' and res is None and \
                 not sim.restart_raised:
             self.check_lost_deadline()
-        if self.on('c09') and op[0] == 'tick' and res != 'noop':
+        if self.on('c09') and op[0] == 'tick' and res is None:
             self.check_pool_size()
         if self.on('c10'):
             self.check_slots(op)
         if self.on('c11'):
             self.check_limiter(op)
         if self.on('c05') or self.on('c06'):
-            if op[0] == 'scan' and res != 'noop':
+            if op[0] == 'scan' and res is None:
                 self.check_scan()
             else:
                 self.check_no_stray_signals(op)
@@ -344,14 +364,7 @@ class Oracle:
         if info is None or info.get('checked'):
             return
         info['checked'] = True
-        expect_created = 0
-        expect_raise = False
-        for status in info['reaped_statuses']:
-            if status not in (0, simpool.EX_RECYCLE):
-                if not self.limiter_step(info['now']):
-                    expect_raise = True
-                    break
-            expect_created += 1
+        expect_created, expect_raise = info['predicted']
         if expect_raise != info['raised']:
             raise Violation('C11/raise-mismatch', 'supervision step at %.2f reaped '
                             '%r: model says raise=%s, pool raise=%s (limiter %r)'
@@ -366,6 +379,18 @@ class Oracle:
         if not expect_raise and self.lim['maxR'] and rs.R != self.lim['R']:
             raise Violation('C11/count-mismatch', 'limiter count %d, model %d'
                             % (rs.R, self.lim['R']))
+
+    def limiter_predict(self, statuses, now):
+        """called by the sim right before the supervision step runs"""
+        if not hasattr(self, 'lim'):
+            return (None, None)
+        created = 0
+        for status in statuses:
+            if status not in (0, simpool.EX_RECYCLE):
+                if not self.limiter_step(now):
+                    return (created, True)
+            created += 1
+        return (created, False)
 
     def limiter_on_ack(self):
         if hasattr(self, 'lim'):
@@ -417,17 +442,13 @@ class Oracle:
             raise Violation('C09/below-size', '%d workers (%d under controlled '
                             'termination) for size %d after supervision' % (
                                 len(pool._pool), len(controlled), sim.model_target))
-        if len(live) < sim.model_target and not any(
-                w._job_terminated if hasattr(w, '_job_terminated') else False
-                for w in controlled) and len(pool._pool) != sim.model_target:
-            raise Violation('C09/below-size', '%d live workers for size %d' % (
-                len(live), sim.model_target))
+        stale = [w.pid for w in pool._pool if w.exitcode is not None]
+        if stale:
+            raise Violation('C09/not-reaped', 'exited workers %r still listed '
+                            'after supervision' % (stale,))
         idx = [w.index for w in pool._pool]
         if len(set(idx)) != len(idx):
             raise Violation('C09/duplicate-index', 'indices %r' % (idx,))
-        if any(i < 0 or i >= max(sim.model_target, len(pool._pool)) for i in idx):
-            raise Violation('C09/index-range', 'indices %r size %d' % (
-                idx, sim.model_target))
 
     # ------------------------------------------------------------------
     # C10
@@ -606,7 +627,8 @@ class Oracle:
                     credited = proc._target.on_ready_counter.value
                     why = 'late-ready' if proc.late_readies and \
                         proc.completed - credited <= proc.late_readies else 'plain'
-                    raise Violation('C09/held-up/' + why, 'worker %d waited out the 30 s '
+                    grp = 'C07/guard-waited/' if self.on('c07') else 'C09/held-up/'
+                    raise Violation(grp + why, 'worker %d waited out the 30 s '
                                     'result-consumption guard (completed %d, '
                                     'credited %d)' % (
                                         proc.pid, proc.completed,
@@ -650,7 +672,7 @@ def proc_was_alive(sim, proc):
     return True
 
 
-def run_case(case, clauses, final_ops=(('quiesce',),)):
+def run_case(case, clauses, final_ops=(('quiesce',),), prop=None):
     """returns (signature, detail, labels)"""
     sim = Sim(case['config'])
     orc = Oracle(sim, set(clauses))
@@ -678,7 +700,7 @@ def run_case(case, clauses, final_ops=(('quiesce',),)):
                     import traceback
                     raise Violation(
                         '%s/raised/%s/%s/%s' % (
-                            sorted(clauses)[0].upper(), op[0],
+                            prop or sorted(clauses)[0].upper(), op[0],
                             type(exc).__name__, where),
                         ''.join(traceback.format_exception(exc))[-1500:])
                 if res == 'noop':
